@@ -484,7 +484,7 @@ let handle (line : string) : string =
           | "CF" -> finish (); ms := mstep !ms MConnectFail
           | "SEL" -> let c = next_int t in if c + 1 <= curc () then sel := c + 1
           | "BB" -> (* a race the model does not resolve: the observation of such a case is judged without the model *)
-                    let _ = next t in let k = next_int t in let h = next_n t in
+                    let _ = next t in let k = next_int t in let h = next_n t in let _ = next t in
                     finish (); apply_peer !sel PeerBad;
                     for j = 0 to k - 1 do
                       let c = curc () in
